@@ -155,6 +155,81 @@ def main():
                             if ok and v != levels[-1]:
                                 rec('env_at_holds_last', call, v, levels[-1], 'the last level is held after the end')
 
+    # ---- 3b. evaluation INSIDE segments for every shape name of the table and numeric curves: rising and
+    #          falling segments, 16 positions per segment, compared with an independent float reference
+    #          (oracles/envgen_layout.shape_value), plus the model-free laws: between the neighbouring levels
+    #          and monotone from the start level to the target
+    def inside(law_prefix, call0, e, levels, durs, cvs, offset):
+        """probe one envelope object e whose documented breakpoints are (levels, durs, cvs, offset)"""
+        C = list(cvs) if isinstance(cvs, list) else [cvs]
+        bps = [sum(durs[:k]) for k in range(len(levels))]
+        scale = max(abs(l) for l in levels)
+        for k in range(len(levels) - 1):
+            if durs[k] <= 0:
+                continue
+            cv = C[k % len(C)]
+            tol = ref.shape_tolerance(cv, scale)
+            lo, hi = sorted((levels[k], levels[k + 1]))
+            prev = None
+            for q in range(0, 16):
+                t = bps[k] + q / 16 * durs[k] + offset
+                call = call0 + '._at(%r)' % t
+                ok, v = attempt('env_at_reference', call, lambda: e._at(t), 'evaluation raised')
+                if not ok:
+                    break
+                want_v = ref.shape_value(cv, levels[k], levels[k + 1], q / 16)
+                if on('env_at_reference') and abs(v - want_v) > tol:
+                    rec('env_at_reference', call, v, want_v, 'segment %d (%r from %r to %r) at position %d/16' % (k, cv, levels[k], levels[k + 1], q))
+                if on('env_at_between_neighbours') and not (lo - tol <= v <= hi + tol):
+                    rec('env_at_between_neighbours', call, v, [lo, hi], 'value inside segment %d (%r) must lie between the neighbouring levels' % (k, cv))
+                if on('env_at_monotone') and prev is not None:
+                    step = v - prev
+                    if (levels[k + 1] >= levels[k] and step < -tol) or (levels[k + 1] <= levels[k] and step > tol):
+                        rec('env_at_monotone', call, v, 'moving from %r towards %r (previous sample %r)' % (levels[k], levels[k + 1], prev),
+                            'inside segment %d (%r) the value must move monotonically from the start level to the target' % (k, cv))
+                prev = v
+
+    if on('env_at_reference') or on('env_at_monotone') or on('env_at_between_neighbours'):
+        all_names = sorted(set(ref.SERVER_SHAPES) | {n for n in Env._SHAPE_NAMES if n in ref.SERVER_SHAPES})
+        all_names = [n for n in all_names if n in Env._SHAPE_NAMES]
+        shapes2 = all_names + [-4, 3, 0.5, -0.75, 0.00005, 0, 8.0]
+        for shp in shapes2:
+            dom = 'samesign' if (isinstance(shp, str) and ref.SERVER_SHAPES[shp] == 2) else 'any'
+            for levels in level_sets[dom] + ([[1, 0], [0, 1], [1, 0, 1, 0.5]] if dom == 'any' else [[4, 1], [0.5, 2, 0.25]]):
+                for durs, offset in (([1] * (len(levels) - 1), 0), ([0.5, 2, 0.25][:len(levels) - 1], 0.75)):
+                    call0 = 'Env(%r, %r, %r, offset=%r)' % (levels, durs, shp, offset)
+                    ok, e = attempt('env_at_reference', call0, lambda: Env(levels, durs, shp, offset=offset), 'constructor raised')
+                    if ok:
+                        inside('', call0, e, levels, durs, shp, offset)
+        # wrapped curve lists landing on rising and falling segments (positive levels: every shape is in its domain)
+        pool = all_names + [-4, 3, 0.5]
+        for _ in range(spec.get('n_mixed', 60)):
+            n = rng.randint(1, 5)
+            levels = [rng.choice([0.25, 0.5, 1, 2, 3, 4, 8]) for _ in range(n + 1)]
+            tl = [rng.choice([0.25, 0.5, 1, 2]) for _ in range(rng.choice([1, n, max(n - 1, 1)]))]
+            durs = [tl[i % len(tl)] for i in range(n)]
+            cvs = [rng.choice(pool) for _ in range(rng.randint(1, n + 1))]
+            offset = rng.choice([0, 0.5])
+            call0 = 'Env(%r, %r, %r, offset=%r)' % (levels, tl, cvs, offset)
+            ok, e = attempt('env_at_reference', call0, lambda: Env(levels, tl, cvs, offset=offset), 'constructor raised')
+            if ok:
+                inside('', call0, e, levels, durs, cvs, offset)
+        # the constructors with every shape: their release / decay segments fall
+        noexp = [c for c in pool if not (isinstance(c, str) and ref.SERVER_SHAPES[c] == 2)]
+        for cname in ('perc', 'linen', 'adsr', 'dadsr', 'asr', 'cutoff'):
+            for cv in noexp:
+                kw = dict(ref.DEFAULTS[cname], curve=cv)
+                for kk in kw:
+                    if kk.endswith('time') or kk == 'dur':
+                        kw[kk] = 0.5
+                call0 = 'Env.%s(%s)' % (cname, ', '.join('%s=%r' % kv for kv in kw.items()))
+                ok, e = attempt('env_at_reference', call0, lambda: getattr(Env, cname)(**kw), 'constructor raised')
+                if ok:
+                    bp = ref.documented(cname, kw)
+                    lv = [float(p[1]) for p in bp['points']]
+                    ds = [float(b[0] - a[0]) for a, b in zip(bp['points'], bp['points'][1:])]
+                    inside('', call0, e, lv, ds, cv, 0)
+
     # ---- 4. constructors produce their documented breakpoints
     if on('ctor_breakpoints'):
         for name, kwargs, want_bp in ref.constructor_cases(rng, spec.get('n_ctor', 20)):
